@@ -133,6 +133,50 @@ func discharge(o *Obl, dir string, timeout int) {
 	}
 	r := runSolver(context.Background(), solvers[0], file, quick)
 	if r.status != "sat" && r.status != "unsat" && timeout > quick {
+		// real-number reading: a pure-arithmetic weakening first (z3's complete non-linear procedure only runs on those)
+		if !o.ExpectSat && !o.Isolated && o.Raw == "" && timeout > 8 {
+			for _, realOnly := range []bool{true, false} {
+				ptext := o.pureText(realOnly)
+				if ptext == "" {
+					continue
+				}
+				pfile := strings.TrimSuffix(file, ".smt2") + map[bool]string{true: ".purereal.smt2", false: ".pure.smt2"}[realOnly]
+				if os.WriteFile(pfile, []byte(ptext), 0o644) == nil {
+					pr := runSolver(context.Background(), solvers[0], pfile, 8)
+					if pr.status == "unsat" {
+						os.Remove(pfile)
+						o.Seconds = time.Since(start).Seconds()
+						o.Solver = pr.solver + " (pure arithmetic weakening)"
+						o.Result = "unsat"
+						return
+					}
+					if os.Getenv("GOVC_KEEP_PURE") == "" {
+						os.Remove(pfile)
+					}
+				}
+			}
+		}
+		// second attempt: only the assumptions that mention something the goal depends on
+		if !o.ExpectSat && !o.Isolated && o.Raw == "" && timeout > 8 {
+			o.Sliced = true
+			stext, serr := o.smtText(false)
+			o.Sliced = false
+			if serr == nil && len(stext) < len(text) {
+				sfile := strings.TrimSuffix(file, ".smt2") + ".sliced.smt2"
+				if os.WriteFile(sfile, []byte(stext), 0o644) == nil {
+					sr := runSolver(context.Background(), solvers[0], sfile, 6)
+					os.Remove(sfile)
+					if sr.status == "unsat" {
+						o.Seconds = time.Since(start).Seconds()
+						o.Solver = sr.solver + " (sliced assumptions)"
+						o.Result = "unsat"
+						return
+					}
+				}
+			}
+		}
+	}
+	if r.status != "sat" && r.status != "unsat" && timeout > quick {
 		ctx, cancel := context.WithCancel(context.Background())
 		ch := make(chan solveResult, len(solvers))
 		for _, sd := range solvers {
